@@ -72,7 +72,7 @@ theorem outPerm_binaryAuroc (nt : Nat) : OutPerm (binaryAurocC nt).out (BinaryLa
   apply aurocCore_perm (hp.map _)
   intro x hx
   obtain ⟨r, hr, rfl⟩ := List.mem_map.mp hx
-  rcases hP r hr k hk' with e | e <;> simp [aurocPt, e] <;> grind
+  rcases hP r hr k hk' with e | e <;> simp [aurocPt] <;> grind
 
 def ovrPt (c j : Nat) (r : List Q × Q) : Pt :=
   ⟨r.1.getD j 0, b2q (r.2 == (c : Q)), b2q (!(r.2 == (c : Q)))⟩
@@ -120,7 +120,8 @@ theorem taskPairRow_eq (j : Nat) (l : List TaskPair) :
 /-- the label columns of cached `(score row, target row)` samples are the task rows of the same
     samples read as `(num_labels, n)` tensors. -/
 theorem labelCols_eq (nl : Nat) (l : List (List Q × List Q)) : labelCols nl l = taskPairRows nl l := by
-  simp only [labelCols, colsOf, taskPairRows, taskPairRow, zip_map_map]
+  simp only [labelCols, colsOf, taskPairRows, taskPairRow, zip_map_map, List.map_map]
+  rfl
 
 theorem posLS_pairs (l : List (Q × Q)) :
     posLS (l.map (·.1)) (l.map (·.2)) = l.map fun p => (p.1, p.2 == 1) := by
@@ -294,18 +295,17 @@ theorem taskRows_taskSamplesOf (nt n : Nat) (x t w : Mat)
     (hx : x.length = nt) (ht : t.length = nt) (hw : w.length = nt)
     (hxn : ∀ r ∈ x, r.length = n) (htn : ∀ r ∈ t, r.length = n) (hwn : ∀ r ∈ w, r.length = n) :
     taskRows nt (taskSamplesOf n x t w) = x.zip (t.zip w) := by
-  have row : ∀ (m : Mat) (k : Nat), (∀ r ∈ m, r.length = n) → k < m.length →
-      (List.range n).map (fun j => (m.map (·.getD j 0)).getD k 0) = m[k]! := by
-    intro m k hm hk
-    have hlen : (m[k]!).length = n := by
-      rw [getElem!_pos m k hk]; exact hm _ (List.getElem_mem hk)
+  have row : ∀ (m : Mat) (k : Nat) (hk : k < m.length), (∀ r ∈ m, r.length = n) →
+      (List.range n).map (fun j => (m.map (·.getD j 0)).getD k 0) = m[k] := by
+    intro m k hk hm
+    have hlen : (m[k]).length = n := hm _ (List.getElem_mem hk)
     apply List.ext_getElem
     · simp [hlen]
     · intro j h1 h2
       simp only [List.getElem_map, List.getElem_range]
       rw [List.getD_eq_getElem?_getD, List.getElem?_map, List.getElem?_eq_getElem hk]
-      simp only [Option.map_some, Option.getD_some, getElem!_pos m k hk]
-      rw [List.getD_eq_getElem?_getD, List.getElem?_eq_getElem (by rw [hm _ (List.getElem_mem hk)]; simpa using h1)]
+      simp only [Option.map_some, Option.getD_some]
+      rw [List.getD_eq_getElem?_getD, List.getElem?_eq_getElem h2]
       rfl
   apply List.ext_getElem
   · simp [taskRows, hx, ht, hw]
@@ -313,8 +313,7 @@ theorem taskRows_taskSamplesOf (nt n : Nat) (x t w : Mat)
     have hk : k < nt := by simpa [taskRows] using h1
     simp only [taskRows, taskRow, taskSamplesOf, List.getElem_map, List.getElem_range, List.map_map,
       Function.comp_def, List.getElem_zip]
-    rw [row x k hxn (by omega), row t k htn (by omega), row w k hwn (by omega),
-      getElem!_pos x k (by omega), getElem!_pos t k (by omega), getElem!_pos w k (by omega)]
+    rw [row x k (by omega) hxn, row t k (by omega) htn, row w k (by omega) hwn]
 
 /-- **BinaryAUROC**: the typed functional on the columns of well-formed `(nt, n)` tensors is
     `binary_auroc` (`binaryAurocTasks`) on their rows. -/
